@@ -90,7 +90,7 @@ def run_real(repo: str, desc: dict, strace: dict | None = None) -> dict:
         env = {"PATH": os.environ.get("PATH", "/usr/bin:/bin"), "PYTHONPATH": os.path.realpath(repo), "PYTHONHASHSEED": "0",
                "PYTHONDONTWRITEBYTECODE": "1", "LC_ALL": "C.UTF-8", "HOME": root,
                "PYTHONIOENCODING": desc["knobs"].get("stdout_encoding", "utf-8") + ":strict"}
-        cmd = [PY312, "-m", "oneliner"] + list(desc["argv"])
+        cmd = [PY312] + (["-W", "error"] if desc["knobs"].get("warnings_error") else []) + ["-m", "oneliner"] + list(desc["argv"])
         if desc["knobs"].get("stderr_closed"):
             cmd = ["sh", "-c", 'exec "$@" 2>&-', "sh"] + cmd
         if strace:
@@ -195,7 +195,7 @@ class Shrinker:
         desc = with_items(items)
         # 3. knobs to defaults
         for k, v in (("buffer_size", 8192), ("stdout_buffer", 8192), ("stdout_line_buffered", False), ("locale", "utf-8"),
-                     ("stdout_encoding", "utf-8")):
+                     ("stdout_encoding", "utf-8"), ("stdout_isatty", False), ("stderr_closed", False), ("warnings_error", False)):
             if desc["knobs"].get(k) != v:
                 d = dict(desc, knobs=dict(desc["knobs"], **{k: v}))
                 if self.fails(d):
@@ -264,8 +264,9 @@ def run(repo: str, tier: str, seed: int, replay_dir=None, write_ev=True, jobs=No
     P = tier_params(tier)
     jobs = jobs or default_jobs()
     hs = hashseeds_for(seed, 2)
-    specs = [(PY312, hs[0])]
-    replicas = max(2, min(jobs, 16))
+    # two template kinds: plain, and `python -O` (asserts of the CLI script and of the library stripped)
+    specs = [(PY312, hs[0], 0, 0), (PY312, hs[1], 0, 1)]
+    replicas = max(1, min(jobs, 16) // 2)
     cov = {"evaluations": 0, "probes": {}, "faults_fired": {}, "phases": {}, "ungated": {}}
     traces, tuples, classes = set(), set(), {}
     samples = []
@@ -295,7 +296,7 @@ def run(repo: str, tier: str, seed: int, replay_dir=None, write_ev=True, jobs=No
         log("fleet up: %d templates, jobs=%d" % (len(fleet.workers()), jobs))
         # ---- systematic phase ------------------------------------------------------------
         sb = systematic_bases()
-        sjobs = [(0, {"cmd": "c16_batch", "descs": sb[i:i + BATCH], "faults": P["systematic_faults"], "multi": 0})
+        sjobs = [((i // BATCH) % 4 == 3 and 1 or 0, {"cmd": "c16_batch", "descs": sb[i:i + BATCH], "faults": P["systematic_faults"], "multi": 0})
                  for i in range(0, len(sb), BATCH)]
         for r in fleet.run(sjobs):
             merge(r)
@@ -310,7 +311,7 @@ def run(repo: str, tier: str, seed: int, replay_dir=None, write_ev=True, jobs=No
         bjobs = []
         nd = (P["determinism_pairs"] + BATCH - 1) // BATCH
         for bi, i in enumerate(range(0, n, BATCH)):
-            bjobs.append((0, {"cmd": "c16_batch", "seeds": seeds[i:i + BATCH], "faults": True, "multi": P["multi"],
+            bjobs.append((1 if bi % 2 else 0, {"cmd": "c16_batch", "seeds": seeds[i:i + BATCH], "faults": True, "multi": P["multi"],
                               "n_samples": 1 if bi < 4 else 0, "want_digests": bi < nd}))
         first = {}
         for (g, req), r in zip(bjobs, fleet.run(bjobs)):
@@ -322,7 +323,7 @@ def run(repo: str, tier: str, seed: int, replay_dir=None, write_ev=True, jobs=No
         log("seeded: %d base cases, %d runs total, failures so far %d" % (n, cov["evaluations"], len(failures)))
 
         # ---- determinism self-check ------------------------------------------------------
-        djobs = [(0, dict(req, n_samples=0, want_digests=True)) for g, req in bjobs[:nd]]
+        djobs = [(g, dict(req, n_samples=0, want_digests=True)) for g, req in bjobs[:nd]]
         pairs = mism = 0
         for r in fleet.run(list(reversed(djobs))):
             for k, v in r["digests"].items():
